@@ -4,6 +4,45 @@ import Gomjml.Core.Leaves
 namespace Gomjml.Leaves
 open Gomjml.Spec Gomjml.Expand
 
+/-- the visibility checker never looks at its stack -/
+theorem vis_any_stack : ∀ (xs : List GTok) (m m' : Nat) (S S' st : List String),
+    runE visStep ⟨m, S⟩ xs = .ok ⟨m', S'⟩ → runE visStep ⟨m, st⟩ xs = .ok ⟨m', st⟩ := by
+  intro xs
+  induction xs with
+  | nil => intro m m' S S' st h; simp only [runE] at h ⊢; simp at h; simp [h.1]
+  | cons x r ih =>
+    intro m m' S S' st h
+    simp only [runE] at h ⊢
+    cases x with
+    | o b n => simp only [visStep] at h ⊢; exact ih _ _ _ _ _ h
+    | c b n => simp only [visStep] at h ⊢; exact ih _ _ _ _ _ h
+    | v b n => simp only [visStep] at h ⊢; exact ih _ _ _ _ _ h
+    | t str =>
+      simp only [visStep] at h ⊢
+      by_cases hm : m = 1
+      · simp [hm] at h
+      · simp only [hm, if_false] at h ⊢; exact ih _ _ _ _ _ h
+    | co =>
+      simp only [visStep, markers] at h ⊢
+      by_cases hm : m = 0
+      · simp only [hm, if_true] at h ⊢; exact ih _ _ _ _ _ h
+      · simp [hm] at h
+    | cc =>
+      simp only [visStep, markers] at h ⊢
+      by_cases hm : m = 1
+      · simp only [hm, if_true] at h ⊢; exact ih _ _ _ _ _ h
+      · simp [hm] at h
+    | nco =>
+      simp only [visStep, markers] at h ⊢
+      by_cases hm : m = 0
+      · simp only [hm, if_true] at h ⊢; exact ih _ _ _ _ _ h
+      · simp [hm] at h
+    | ncc =>
+      simp only [visStep, markers] at h ⊢
+      by_cases hm : m = 2
+      · simp only [hm, if_true] at h ⊢; exact ih _ _ _ _ _ h
+      · simp [hm] at h
+
 section
 variable {step : VS → GTok → Except String VS}
 
@@ -42,228 +81,273 @@ theorem table_moves (hc : IsChecker step) (rows : Nat) (tx : Bool) : Moves step 
     · exact movesM_closed3 hc 0 0 _ _ _ (by rfl) (by rfl) (by rfl)
   · exact movesM_replicate 0 [] _ rows hrow
 
+theorem rawG_moves (hc : IsChecker step) (b : Bool) : Moves step [] [] (rawG b) := by
+  cases b
+  · exact movesM_closed3 hc 0 0 [] [] _ (by rfl) (by rfl) (by rfl)
+  · exact movesM_nil _ _ _
+
 /-! ### mj-social -/
 
 theorem socElH_moves (hc : IsChecker step) (e : SocEl) : Moves step [] [] (socElH e) := by
-  obtain ⟨ic, h, tx⟩ := e
-  cases ic <;> cases h <;> cases tx <;> exact movesM_closed3 hc 0 0 [] [] _ (by rfl) (by rfl) (by rfl)
+  obtain ⟨h, tx⟩ := e
+  cases h <;> cases tx <;> exact movesM_closed3 hc 0 0 [] [] _ (by rfl) (by rfl) (by rfl)
 
 theorem socElV_moves (hc : IsChecker step) (e : SocEl) : Moves step [] [] (socElV e) := by
-  obtain ⟨ic, h, tx⟩ := e
-  cases ic <;> cases h <;> cases tx <;> exact movesM_closed3 hc 0 0 [] [] _ (by rfl) (by rfl) (by rfl)
+  obtain ⟨h, tx⟩ := e
+  cases h <;> cases tx <;> exact movesM_closed3 hc 0 0 [] [] _ (by rfl) (by rfl) (by rfl)
+
+theorem socKidV_moves (hc : IsChecker step) (k : SocChild) : Moves step [] [] (socKidV k) := by
+  cases k with
+  | el e => exact socElV_moves hc e
+  | raw b => exact rawG_moves hc b
 
 /-- the separator closes the Outlook cell that is open and opens the next one: with a `td` on top, nothing changes -/
-theorem socSep_moves (hc : IsChecker step) : Moves step ["td"] ["td"] [.co, c "td", o "td", .cc] :=
+theorem socSep_moves (hc : IsChecker step) : Moves step ["td"] ["td"] socSep :=
   movesM_closed3 hc 0 0 _ _ _ (by rfl) (by rfl) (by rfl)
 
-theorem socLoop_moves (hc : IsChecker step) : ∀ els : List SocEl, Moves step ["td"] ["td"] (socLoop els)
-  | [] => movesM_nil _ _ _
-  | [e] => by simpa [socLoop] using movesM_base (socElH_moves hc e) ["td"]
-  | e :: e' :: r => by
-    have ih := socLoop_moves hc (e' :: r)
+/-- with a cell open, the loop over ANY list of children (elements and raw content, whatever the counter says) leaves exactly
+    that cell open -/
+theorem socLoop_moves (hc : IsChecker step) : ∀ (kids : List SocChild) (rem : Nat), Moves step ["td"] ["td"] (socLoop rem kids)
+  | [], _ => movesM_nil _ _ _
+  | .raw b :: r, rem => by
     simp only [socLoop]
-    exact movesM_append (movesM_append (movesM_base (socElH_moves hc e) ["td"]) (socSep_moves hc)) ih
-
-theorem social_std (vm : Bool) (els : List SocEl) : Moves stdStep [] [] (socialToks vm els) := by
-  have hc : IsChecker stdStep := Or.inl rfl
-  unfold socialToks
-  cases vm
-  · simp only [Bool.false_eq_true, if_false]
-    cases els with
-    | nil => exact movesM_of_closed std_framed 0 0 [] [] _ (by rfl)
-    | cons e r =>
-      simp only [List.isEmpty_cons, Bool.false_eq_true, if_false]
-      have hpre : Moves stdStep [] ["td", "tr"] ([o "tr", o "td"] ++ [.co, o "table", o "tr", o "td", .cc]) :=
-        movesM_of_closed std_framed 0 0 _ _ _ (by rfl)
-      have hpost : Moves stdStep ["td", "tr"] [] ([.co, c "td", c "tr", c "table", .cc] ++ [c "td", c "tr"]) :=
-        movesM_of_closed std_framed 0 0 _ _ _ (by rfl)
-      have hmid := movesM_lift (socLoop_moves hc (e :: r)) ["tr"]
-      have := movesM_append (movesM_append hpre hmid) hpost
-      simpa [List.append_assoc] using this
-  · simp only [if_true]
-    have hpre : Moves stdStep [] ["tbody", "table", "td", "tr"] ([o "tr", o "td"] ++ [o "table", o "tbody"]) :=
-      movesM_of_closed std_framed 0 0 _ _ _ (by rfl)
-    have hpost : Moves stdStep ["tbody", "table", "td", "tr"] [] ([c "tbody", c "table"] ++ [c "td", c "tr"]) :=
-      movesM_of_closed std_framed 0 0 _ _ _ (by rfl)
-    have hmid := movesM_flatMap 0 ["tbody", "table", "td", "tr"] socElV els (fun e _ => movesM_base (socElV_moves hc e) _)
-    have := movesM_append (movesM_append hpre hmid) hpost
-    simpa [List.append_assoc] using this
-
-theorem social_mso (vm : Bool) (els : List SocEl) : Moves msoStep [] [] (socialToks vm els) := by
-  have hc : IsChecker msoStep := Or.inr (Or.inl rfl)
-  unfold socialToks
-  cases vm
-  · simp only [Bool.false_eq_true, if_false]
-    cases els with
-    | nil => exact movesM_of_closed mso_framed 0 0 [] [] _ (by rfl)
-    | cons e r =>
-      simp only [List.isEmpty_cons, Bool.false_eq_true, if_false]
-      have hpre : Moves msoStep [] ["td", "tr", "table", "td", "tr"] ([o "tr", o "td"] ++ [.co, o "table", o "tr", o "td", .cc]) :=
-        movesM_of_closed mso_framed 0 0 _ _ _ (by rfl)
-      have hpost : Moves msoStep ["td", "tr", "table", "td", "tr"] [] ([.co, c "td", c "tr", c "table", .cc] ++ [c "td", c "tr"]) :=
-        movesM_of_closed mso_framed 0 0 _ _ _ (by rfl)
-      have hmid := movesM_lift (socLoop_moves hc (e :: r)) ["tr", "table", "td", "tr"]
-      have := movesM_append (movesM_append hpre hmid) hpost
-      simpa [List.append_assoc] using this
-  · simp only [if_true]
-    have hpre : Moves msoStep [] ["tbody", "table", "td", "tr"] ([o "tr", o "td"] ++ [o "table", o "tbody"]) :=
-      movesM_of_closed mso_framed 0 0 _ _ _ (by rfl)
-    have hpost : Moves msoStep ["tbody", "table", "td", "tr"] [] ([c "tbody", c "table"] ++ [c "td", c "tr"]) :=
-      movesM_of_closed mso_framed 0 0 _ _ _ (by rfl)
-    have hmid := movesM_flatMap 0 ["tbody", "table", "td", "tr"] socElV els (fun e _ => movesM_base (socElV_moves hc e) _)
-    have := movesM_append (movesM_append hpre hmid) hpost
-    simpa [List.append_assoc] using this
-
-theorem socLoop_vis : ∀ l : List SocEl, Moves visStep [] [] (socLoop l)
-  | [] => movesM_nil _ _ _
-  | [e] => by simpa [socLoop] using socElH_moves (Or.inr (Or.inr rfl)) e
-  | e :: e' :: r => by
-    have ih := socLoop_vis (e' :: r)
+    exact movesM_append (movesM_base (rawG_moves hc b) ["td"]) (socLoop_moves hc r rem)
+  | .el e :: r, rem => by
     simp only [socLoop]
-    exact movesM_append (movesM_append (socElH_moves (Or.inr (Or.inr rfl)) e) (movesM_of_closed vis_framed 0 0 [] [] _ (by rfl))) ih
+    refine movesM_append (movesM_append (movesM_base (socElH_moves hc e) ["td"]) ?_) (socLoop_moves hc r (rem - 1))
+    split
+    · exact socSep_moves hc
+    · exact movesM_nil _ _ _
 
-theorem social_vis (vm : Bool) (els : List SocEl) : Moves visStep [] [] (socialToks vm els) := by
-  have hc : IsChecker visStep := Or.inr (Or.inr rfl)
+/-- without elements the loop writes raw content only -/
+theorem socLoop_noel (hc : IsChecker step) : ∀ (kids : List SocChild) (rem : Nat), kids.countP SocChild.isEl = 0 →
+    Moves step [] [] (socLoop rem kids)
+  | [], _, _ => movesM_nil _ _ _
+  | .raw b :: r, rem, h => by
+    simp only [socLoop]
+    exact movesM_append (rawG_moves hc b) (socLoop_noel hc r rem (by simpa [List.countP_cons, SocChild.isEl] using h))
+  | .el e :: r, rem, h => by simp [List.countP_cons, SocChild.isEl] at h
+
+theorem social_moves (hc : IsChecker step) (vm : Bool) (kids : List SocChild) : Moves step [] [] (socialToks vm kids) := by
   unfold socialToks
+  simp only
   cases vm
   · simp only [Bool.false_eq_true, if_false]
-    cases els with
-    | nil => exact movesM_of_closed vis_framed 0 0 [] [] _ (by rfl)
-    | cons e r =>
-      simp only [List.isEmpty_cons, Bool.false_eq_true, if_false]
-      -- the visibility checker keeps no stack: every part is inert on the empty stack; lift the loop from its `td`
-      have hpre : Moves visStep [] [] ([o "tr", o "td"] ++ [.co, o "table", o "tr", o "td", .cc]) :=
-        movesM_of_closed vis_framed 0 0 _ _ _ (by rfl)
-      have hpost : Moves visStep [] [] ([.co, c "td", c "tr", c "table", .cc] ++ [c "td", c "tr"]) :=
-        movesM_of_closed vis_framed 0 0 _ _ _ (by rfl)
-      have := movesM_append (movesM_append hpre (socLoop_vis (e :: r))) hpost
+    by_cases hn : kids.countP SocChild.isEl > 0
+    · simp only [hn, if_true]
+      have hmid := socLoop_moves hc kids (kids.countP SocChild.isEl)
+      rcases hc with rfl | rfl | rfl
+      · have hpre : Moves stdStep [] ["td", "tr"] ([o "tr", o "td"] ++ [.co, o "table", o "tr", o "td", .cc]) :=
+          movesM_of_closed std_framed 0 0 _ _ _ (by rfl)
+        have hpost : Moves stdStep ["td", "tr"] [] ([.co, c "td", c "tr", c "table", .cc] ++ [c "td", c "tr"]) :=
+          movesM_of_closed std_framed 0 0 _ _ _ (by rfl)
+        have := movesM_append (movesM_append hpre (movesM_lift hmid ["tr"])) hpost
+        simpa [List.append_assoc] using this
+      · have hpre : Moves msoStep [] ["td", "tr", "table", "td", "tr"] ([o "tr", o "td"] ++ [.co, o "table", o "tr", o "td", .cc]) :=
+          movesM_of_closed mso_framed 0 0 _ _ _ (by rfl)
+        have hpost : Moves msoStep ["td", "tr", "table", "td", "tr"] [] ([.co, c "td", c "tr", c "table", .cc] ++ [c "td", c "tr"]) :=
+          movesM_of_closed mso_framed 0 0 _ _ _ (by rfl)
+        have := movesM_append (movesM_append hpre (movesM_lift hmid ["tr", "table", "td", "tr"])) hpost
+        simpa [List.append_assoc] using this
+      · -- the visibility checker keeps no stack: run the loop from the empty stack
+        have hloop : Moves visStep [] [] (socLoop (kids.countP SocChild.isEl) kids) := by
+          intro st
+          have := hmid []
+          -- visStep never looks at the stack: the run from [] ++ st equals the run from ["td"] up to the stack
+          simpa using vis_any_stack _ 0 0 _ _ st this
+        have hpre : Moves visStep [] [] ([o "tr", o "td"] ++ [.co, o "table", o "tr", o "td", .cc]) :=
+          movesM_of_closed vis_framed 0 0 _ _ _ (by rfl)
+        have hpost : Moves visStep [] [] ([.co, c "td", c "tr", c "table", .cc] ++ [c "td", c "tr"]) :=
+          movesM_of_closed vis_framed 0 0 _ _ _ (by rfl)
+        have := movesM_append (movesM_append hpre hloop) hpost
+        simpa [List.append_assoc] using this
+    · simp only [hn, if_false]
+      have h0 : kids.countP SocChild.isEl = 0 := by omega
+      have hmid := socLoop_noel hc kids (kids.countP SocChild.isEl) h0
+      have := sandwich3 hc ([o "tr", o "td"] ++ [.co, o "table", o "tr", .cc]) _ ([.co, c "tr", c "table", .cc] ++ [c "td", c "tr"])
+        ["td", "tr"] ["tr", "table", "td", "tr"] (by rfl) (by rfl) (by rfl) (by rfl) (by rfl) (by rfl) hmid
       simpa [List.append_assoc] using this
   · simp only [if_true]
-    have hpre : Moves visStep [] [] ([o "tr", o "td"] ++ [o "table", o "tbody"]) := movesM_of_closed vis_framed 0 0 _ _ _ (by rfl)
-    have hpost : Moves visStep [] [] ([c "tbody", c "table"] ++ [c "td", c "tr"]) := movesM_of_closed vis_framed 0 0 _ _ _ (by rfl)
-    have hmid := movesM_flatMap 0 [] socElV els (fun e _ => socElV_moves hc e)
-    have := movesM_append (movesM_append hpre hmid) hpost
+    have hmid := movesM_flatMap 0 [] socKidV kids (fun k _ => socKidV_moves hc k)
+    have := sandwich3 hc ([o "tr", o "td"] ++ [o "table", o "tbody"]) _ ([c "tbody", c "table"] ++ [c "td", c "tr"])
+      ["tbody", "table", "td", "tr"] ["tbody", "table", "td", "tr"] (by rfl) (by rfl) (by rfl) (by rfl) (by rfl) (by rfl) hmid
     simpa [List.append_assoc] using this
-
-end
-
-theorem social_inert (vm : Bool) (els : List SocEl) : Inert (socialToks vm els) :=
-  ⟨inert_of_moves (social_std vm els), inert_of_moves (social_mso vm els), inert_of_moves (social_vis vm els)⟩
 
 /-! ### mj-navbar -/
 
-section
-variable {step : VS → GTok → Except String VS}
-
-theorem navLink_moves (hc : IsChecker step) (cn : Bool) : Moves step [] [] ([o "a"] ++ ite' cn [t] ++ [c "a"]) := by
+theorem navLink_moves (hc : IsChecker step) (cn : Bool) : Moves step [] [] (navLink cn) := by
   cases cn <;> exact movesM_closed3 hc 0 0 [] [] _ (by rfl) (by rfl) (by rfl)
 
-/-- links after the first: each closes the previous Outlook cell and opens its own -/
-theorem navLoop_moves (hc : IsChecker step) : ∀ links : List Bool, Moves step ["td"] ["td"] (navLoop false links)
+/-- children behind the first link: each further link closes the previous Outlook cell and opens its own; raw content in between -/
+theorem navLoop_moves (hc : IsChecker step) : ∀ kids : List NavChild, Moves step ["td"] ["td"] (navLoop false false kids)
   | [] => movesM_nil _ _ _
-  | cn :: r => by
-    have ih := navLoop_moves hc r
+  | .raw b :: r => by
+    simp only [navLoop, Bool.false_eq_true, if_false, List.nil_append]
+    exact movesM_append (movesM_base (rawG_moves hc b) ["td"]) (navLoop_moves hc r)
+  | .link cn :: r => by
     simp only [navLoop, Bool.false_eq_true, if_false]
     have hsep : Moves step ["td"] ["td"] [.co, c "td", o "td", .cc] := movesM_closed3 hc 0 0 _ _ _ (by rfl) (by rfl) (by rfl)
-    have hl := movesM_base (navLink_moves hc cn) ["td"]
-    have := movesM_append (movesM_append hsep hl) ih
-    simpa [List.append_assoc] using this
+    exact movesM_append (movesM_append hsep (movesM_base (navLink_moves hc cn) ["td"])) (navLoop_moves hc r)
 
-end
-
-/-- for a checker that passes the separator on the empty stack (standard clients skip it, the visibility check keeps no stack)
-    the loop over the further links is inert -/
-theorem navLoop_flat {step} (hc : IsChecker step) (hf : Framed step)
-    (hsep : runE step ⟨0, []⟩ [.co, c "td", o "td", .cc] = .ok ⟨0, []⟩) : ∀ l : List Bool, Moves step [] [] (navLoop false l)
+/-- children in front of the first link, the opening conditional already closed (by raw content): raw content is written
+    outside conditionals; the first link opens a conditional for its cell.  For Outlook a cell is open afterwards iff there
+    was a link. -/
+theorem navLoop_first_mso : ∀ kids : List NavChild,
+    Moves msoStep [] (if kids.any NavChild.isLink then ["td"] else []) (navLoop false true kids)
   | [] => movesM_nil _ _ _
-  | x :: l => by
-    have ih := navLoop_flat hc hf hsep l
-    simp only [navLoop, Bool.false_eq_true, if_false]
-    have := movesM_append (movesM_append (movesM_of_closed hf 0 0 [] [] [.co, c "td", o "td", .cc] hsep) (navLink_moves hc x)) ih
-    simpa [List.append_assoc] using this
+  | .raw b :: r => by
+    have ih := navLoop_first_mso r
+    simp only [navLoop, Bool.false_eq_true, if_false, List.nil_append, List.any_cons, NavChild.isLink, Bool.false_or]
+    exact movesM_append (rawG_moves (Or.inr (Or.inl rfl)) b) ih
+  | .link cn :: r => by
+    simp only [navLoop, Bool.false_eq_true, if_false, if_true, List.any_cons, NavChild.isLink, Bool.true_or]
+    have h1 : Moves msoStep [] ["td"] ([.co] ++ [o "td", .cc]) := movesM_of_closed mso_framed 0 0 _ _ _ (by rfl)
+    exact movesM_append (movesM_append h1 (movesM_base (navLink_moves (Or.inr (Or.inl rfl)) cn) ["td"])) (navLoop_moves (Or.inr (Or.inl rfl)) r)
 
-theorem hamburger_part (step) (hc : IsChecker step) (hb : Bool) :
-    Moves step [] [] (ite' hb [.nco, v "input", .ncc, o "div", o "label", o "span", fill, c "span", o "span", fill, c "span", c "label", c "div"]) := by
+/-- for a checker that passes the cell markup on the empty stack (standard clients skip it, the visibility check keeps no
+    stack) the whole loop behind the opening conditional is inert -/
+theorem navLoop_flat (hc : IsChecker step) (hf : Framed step)
+    (h1 : runE step ⟨0, []⟩ [.co, o "td", .cc] = .ok ⟨0, []⟩) (h2 : runE step ⟨0, []⟩ [.co, c "td", o "td", .cc] = .ok ⟨0, []⟩) :
+    ∀ (first : Bool) (kids : List NavChild), Moves step [] [] (navLoop false first kids)
+  | _, [] => movesM_nil _ _ _
+  | first, .raw b :: r => by
+    simp only [navLoop, Bool.false_eq_true, if_false, List.nil_append]
+    exact movesM_append (rawG_moves hc b) (navLoop_flat hc hf h1 h2 first r)
+  | first, .link cn :: r => by
+    simp only [navLoop, Bool.false_eq_true, if_false]
+    refine movesM_append (movesM_append ?_ (navLink_moves hc cn)) (navLoop_flat hc hf h1 h2 false r)
+    cases first
+    · exact movesM_of_closed hf 0 0 [] [] _ h2
+    · exact movesM_of_closed hf 0 0 [] [] _ h1
+
+theorem hamburger_part (hc : IsChecker step) (hb : Bool) : Moves step [] [] (ite' hb hamburgerToks) := by
   cases hb
   · exact movesM_nil _ _ _
   · exact movesM_closed3 hc 0 0 [] [] _ (by rfl) (by rfl) (by rfl)
 
-/-- the shape of a navbar with at least one link, regrouped: opening up to and including the first link's cell opener, the
-    first link, the other links, the closing -/
-theorem navbar_shape (hb cn : Bool) (r : List Bool) :
-    navbarToks hb (cn :: r) =
-      [o "tr", o "td"] ++
-      (ite' hb [.nco, v "input", .ncc, o "div", o "label", o "span", fill, c "span", o "span", fill, c "span", c "label", c "div"] ++
-      ([o "div", .co, o "table", o "tr", o "td", .cc] ++
-      (([o "a"] ++ ite' cn [t] ++ [c "a"]) ++
-      (navLoop false r ++
+end
+
+/-- the three ways a navbar starts: no child at all; raw content first (it closes the opening conditional); a link first (its
+    cell continues the opening conditional) -/
+theorem navbar_shape_raw (hb b : Bool) (r : List NavChild) :
+    navbarToks hb (.raw b :: r) =
+      [o "tr", o "td"] ++ (ite' hb hamburgerToks ++ ([o "div", .co, o "table", o "tr", .cc] ++ (rawG b ++ (navLoop false true r ++
+      ((if r.any NavChild.isLink then [.co, c "td"] else [.co]) ++ [c "tr", c "table", .cc, c "div", c "td", c "tr"]))))) := by
+  simp [navbarToks, navLoop, List.append_assoc, NavChild.isLink]
+
+theorem navbar_shape_link (hb cn : Bool) (r : List NavChild) :
+    navbarToks hb (.link cn :: r) =
+      [o "tr", o "td"] ++ (ite' hb hamburgerToks ++ ([o "div", .co, o "table", o "tr", o "td", .cc] ++ (navLink cn ++ (navLoop false false r ++
       [.co, c "td", c "tr", c "table", .cc, c "div", c "td", c "tr"])))) := by
-  simp [navbarToks, navLoop, List.append_assoc]
+  simp [navbarToks, navLoop, List.append_assoc, NavChild.isLink]
 
-theorem navbar_std (hb : Bool) (links : List Bool) : Moves stdStep [] [] (navbarToks hb links) := by
+theorem navbar_std (hb : Bool) (kids : List NavChild) : Moves stdStep [] [] (navbarToks hb kids) := by
   have hc : IsChecker stdStep := Or.inl rfl
-  cases links with
+  have flat := navLoop_flat hc std_framed (by rfl) (by rfl)
+  have h0 : Moves stdStep [] ["td", "tr"] [o "tr", o "td"] := movesM_of_closed std_framed 0 0 _ _ _ (by rfl)
+  have h1 := movesM_base (hamburger_part hc hb) ["td", "tr"]
+  cases kids with
   | nil => cases hb <;> exact movesM_of_closed std_framed 0 0 [] [] _ (by rfl)
-  | cons cn r =>
-    rw [navbar_shape]
-    have h0 : Moves stdStep [] ["td", "tr"] [o "tr", o "td"] := movesM_of_closed std_framed 0 0 _ _ _ (by rfl)
-    have h1 := movesM_base (hamburger_part stdStep hc hb) ["td", "tr"]
-    have h2 : Moves stdStep ["td", "tr"] ["div", "td", "tr"] [o "div", .co, o "table", o "tr", o "td", .cc] :=
-      movesM_of_closed std_framed 0 0 _ _ _ (by rfl)
-    have h3 := movesM_base (navLink_moves hc cn) ["div", "td", "tr"]
-    -- for a standard client the separators are skipped: the loop is inert (no `td` needed on top)
-    have h4 := movesM_base (navLoop_flat (Or.inl rfl) std_framed (by rfl) r) ["div", "td", "tr"]
-    have h5 : Moves stdStep ["div", "td", "tr"] [] [.co, c "td", c "tr", c "table", .cc, c "div", c "td", c "tr"] :=
-      movesM_of_closed std_framed 0 0 _ _ _ (by rfl)
-    exact movesM_append h0 (movesM_append h1 (movesM_append h2 (movesM_append h3 (movesM_append h4 h5))))
+  | cons k r =>
+    cases k with
+    | raw b =>
+      rw [navbar_shape_raw]
+      have h2 : Moves stdStep ["td", "tr"] ["div", "td", "tr"] [o "div", .co, o "table", o "tr", .cc] := movesM_of_closed std_framed 0 0 _ _ _ (by rfl)
+      have h3 := movesM_base (rawG_moves hc b) ["div", "td", "tr"]
+      have h4 := movesM_base (flat true r) ["div", "td", "tr"]
+      have h5 : Moves stdStep ["div", "td", "tr"] []
+          ((if r.any NavChild.isLink then [.co, c "td"] else [.co]) ++ [c "tr", c "table", .cc, c "div", c "td", c "tr"]) := by
+        split <;> exact movesM_of_closed std_framed 0 0 _ _ _ (by rfl)
+      exact movesM_append h0 (movesM_append h1 (movesM_append h2 (movesM_append h3 (movesM_append h4 h5))))
+    | link cn =>
+      rw [navbar_shape_link]
+      have h2 : Moves stdStep ["td", "tr"] ["div", "td", "tr"] [o "div", .co, o "table", o "tr", o "td", .cc] := movesM_of_closed std_framed 0 0 _ _ _ (by rfl)
+      have h3 := movesM_base (navLink_moves hc cn) ["div", "td", "tr"]
+      have h4 := movesM_base (flat false r) ["div", "td", "tr"]
+      have h5 : Moves stdStep ["div", "td", "tr"] [] [.co, c "td", c "tr", c "table", .cc, c "div", c "td", c "tr"] :=
+        movesM_of_closed std_framed 0 0 _ _ _ (by rfl)
+      exact movesM_append h0 (movesM_append h1 (movesM_append h2 (movesM_append h3 (movesM_append h4 h5))))
 
-theorem navbar_mso (hb : Bool) (links : List Bool) : Moves msoStep [] [] (navbarToks hb links) := by
+theorem navbar_mso (hb : Bool) (kids : List NavChild) : Moves msoStep [] [] (navbarToks hb kids) := by
   have hc : IsChecker msoStep := Or.inr (Or.inl rfl)
-  cases links with
+  have h0 : Moves msoStep [] ["td", "tr"] [o "tr", o "td"] := movesM_of_closed mso_framed 0 0 _ _ _ (by rfl)
+  have h1 := movesM_base (hamburger_part hc hb) ["td", "tr"]
+  cases kids with
   | nil => cases hb <;> exact movesM_of_closed mso_framed 0 0 [] [] _ (by rfl)
-  | cons cn r =>
-    rw [navbar_shape]
-    have h0 : Moves msoStep [] ["td", "tr"] [o "tr", o "td"] := movesM_of_closed mso_framed 0 0 _ _ _ (by rfl)
-    have h1 := movesM_base (hamburger_part msoStep hc hb) ["td", "tr"]
-    have h2 : Moves msoStep ["td", "tr"] ["td", "tr", "table", "div", "td", "tr"] [o "div", .co, o "table", o "tr", o "td", .cc] :=
-      movesM_of_closed mso_framed 0 0 _ _ _ (by rfl)
-    have h3 := movesM_base (navLink_moves hc cn) ["td", "tr", "table", "div", "td", "tr"]
-    have h4 := movesM_lift (navLoop_moves hc r) ["tr", "table", "div", "td", "tr"]
-    have h5 : Moves msoStep ["td", "tr", "table", "div", "td", "tr"] [] [.co, c "td", c "tr", c "table", .cc, c "div", c "td", c "tr"] :=
-      movesM_of_closed mso_framed 0 0 _ _ _ (by rfl)
-    exact movesM_append h0 (movesM_append h1 (movesM_append h2 (movesM_append h3 (movesM_append h4 h5))))
+  | cons k r =>
+    cases k with
+    | raw b =>
+      rw [navbar_shape_raw]
+      have h2 : Moves msoStep ["td", "tr"] ["tr", "table", "div", "td", "tr"] [o "div", .co, o "table", o "tr", .cc] :=
+        movesM_of_closed mso_framed 0 0 _ _ _ (by rfl)
+      have h3 := movesM_base (rawG_moves hc b) ["tr", "table", "div", "td", "tr"]
+      have h4 := movesM_lift (navLoop_first_mso r) ["tr", "table", "div", "td", "tr"]
+      by_cases hl : r.any NavChild.isLink = true
+      · simp only [hl, if_true] at h4 ⊢
+        have h5 : Moves msoStep (["td"] ++ ["tr", "table", "div", "td", "tr"]) [] ([.co, c "td"] ++ [c "tr", c "table", .cc, c "div", c "td", c "tr"]) :=
+          movesM_of_closed mso_framed 0 0 _ _ _ (by rfl)
+        exact movesM_append h0 (movesM_append h1 (movesM_append h2 (movesM_append h3 (movesM_append h4 h5))))
+      · have hl' : r.any NavChild.isLink = false := by simpa using hl
+        simp only [hl', Bool.false_eq_true, if_false] at h4 ⊢
+        have h5 : Moves msoStep ([] ++ ["tr", "table", "div", "td", "tr"]) [] ([.co] ++ [c "tr", c "table", .cc, c "div", c "td", c "tr"]) :=
+          movesM_of_closed mso_framed 0 0 _ _ _ (by rfl)
+        exact movesM_append h0 (movesM_append h1 (movesM_append h2 (movesM_append h3 (movesM_append h4 h5))))
+    | link cn =>
+      rw [navbar_shape_link]
+      have h2 : Moves msoStep ["td", "tr"] ["td", "tr", "table", "div", "td", "tr"] [o "div", .co, o "table", o "tr", o "td", .cc] :=
+        movesM_of_closed mso_framed 0 0 _ _ _ (by rfl)
+      have h3 := movesM_base (navLink_moves hc cn) ["td", "tr", "table", "div", "td", "tr"]
+      have h4 := movesM_lift (navLoop_moves hc r) ["tr", "table", "div", "td", "tr"]
+      have h5 : Moves msoStep ["td", "tr", "table", "div", "td", "tr"] [] [.co, c "td", c "tr", c "table", .cc, c "div", c "td", c "tr"] :=
+        movesM_of_closed mso_framed 0 0 _ _ _ (by rfl)
+      exact movesM_append h0 (movesM_append h1 (movesM_append h2 (movesM_append h3 (movesM_append h4 h5))))
 
-theorem navbar_vis (hb : Bool) (links : List Bool) : Moves visStep [] [] (navbarToks hb links) := by
+theorem navbar_vis (hb : Bool) (kids : List NavChild) : Moves visStep [] [] (navbarToks hb kids) := by
   have hc : IsChecker visStep := Or.inr (Or.inr rfl)
-  cases links with
+  have flat := navLoop_flat hc vis_framed (by rfl) (by rfl)
+  have h0 : Moves visStep [] [] [o "tr", o "td"] := movesM_of_closed vis_framed 0 0 _ _ _ (by rfl)
+  have h1 := hamburger_part hc hb
+  cases kids with
   | nil => cases hb <;> exact movesM_of_closed vis_framed 0 0 [] [] _ (by rfl)
-  | cons cn r =>
-    rw [navbar_shape]
-    have h0 : Moves visStep [] [] [o "tr", o "td"] := movesM_of_closed vis_framed 0 0 _ _ _ (by rfl)
-    have h1 := hamburger_part visStep hc hb
-    have h2 : Moves visStep [] [] [o "div", .co, o "table", o "tr", o "td", .cc] := movesM_of_closed vis_framed 0 0 _ _ _ (by rfl)
-    have h3 := navLink_moves hc cn
-    have h5 : Moves visStep [] [] [.co, c "td", c "tr", c "table", .cc, c "div", c "td", c "tr"] :=
-      movesM_of_closed vis_framed 0 0 _ _ _ (by rfl)
-    exact movesM_append h0 (movesM_append h1 (movesM_append h2 (movesM_append h3 (movesM_append (navLoop_flat (Or.inr (Or.inr rfl)) vis_framed (by rfl) r) h5))))
-
-theorem navbar_inert (hb : Bool) (links : List Bool) : Inert (navbarToks hb links) :=
-  ⟨inert_of_moves (navbar_std hb links), inert_of_moves (navbar_mso hb links), inert_of_moves (navbar_vis hb links)⟩
+  | cons k r =>
+    cases k with
+    | raw b =>
+      rw [navbar_shape_raw]
+      have h2 : Moves visStep [] [] [o "div", .co, o "table", o "tr", .cc] := movesM_of_closed vis_framed 0 0 _ _ _ (by rfl)
+      have h5 : Moves visStep [] [] ((if r.any NavChild.isLink then [.co, c "td"] else [.co]) ++ [c "tr", c "table", .cc, c "div", c "td", c "tr"]) := by
+        split <;> exact movesM_of_closed vis_framed 0 0 _ _ _ (by rfl)
+      exact movesM_append h0 (movesM_append h1 (movesM_append h2 (movesM_append (rawG_moves hc b) (movesM_append (flat true r) h5))))
+    | link cn =>
+      rw [navbar_shape_link]
+      have h2 : Moves visStep [] [] [o "div", .co, o "table", o "tr", o "td", .cc] := movesM_of_closed vis_framed 0 0 _ _ _ (by rfl)
+      have h5 : Moves visStep [] [] [.co, c "td", c "tr", c "table", .cc, c "div", c "td", c "tr"] := movesM_of_closed vis_framed 0 0 _ _ _ (by rfl)
+      exact movesM_append h0 (movesM_append h1 (movesM_append h2 (movesM_append (navLink_moves hc cn) (movesM_append (flat false r) h5))))
 
 /-! ### mj-accordion -/
 
 section
 variable {step : VS → GTok → Except String VS}
 
-theorem accEl_moves (hc : IsChecker step) (e : AccEl) : Moves step [] [] (accElToks e) := by
-  obtain ⟨ti, tx, il⟩ := e
-  rcases ti with _ | ⟨_ | _⟩ <;> rcases tx with _ | ⟨_ | _⟩ <;> cases il <;>
-    exact movesM_closed3 hc 0 0 [] [] _ (by rfl) (by rfl) (by rfl)
+theorem accPart_moves (hc : IsChecker step) (il : Bool) (p : AccPart) : Moves step [] [] (accPartToks il p) := by
+  cases p with
+  | title cn => cases il <;> cases cn <;> exact movesM_closed3 hc 0 0 [] [] _ (by rfl) (by rfl) (by rfl)
+  | text cn => cases cn <;> exact movesM_closed3 hc 0 0 [] [] _ (by rfl) (by rfl) (by rfl)
+  | raw b => exact rawG_moves hc b
 
-theorem accordion_moves (hc : IsChecker step) (els : List AccEl) : Moves step [] [] (accordionToks els) := by
+theorem accEl_moves (hc : IsChecker step) (e : AccEl) : Moves step [] [] (accElToks e) := by
+  unfold accElToks
+  exact sandwich3 hc _ _ _ ["div", "label", "td", "tr"] ["div", "label", "td", "tr"] (by rfl) (by rfl) (by rfl) (by rfl) (by rfl) (by rfl)
+    (movesM_flatMap 0 [] _ e.parts (fun p _ => accPart_moves hc e.iconLeft p))
+
+theorem accKid_moves (hc : IsChecker step) (k : AccChild) : Moves step [] [] (accKidToks k) := by
+  cases k with
+  | el e => exact accEl_moves hc e
+  | raw b => exact rawG_moves hc b
+
+theorem accordion_moves (hc : IsChecker step) (kids : List AccChild) : Moves step [] [] (accordionToks kids) := by
   unfold accordionToks
   exact sandwich3 hc _ _ _ ["tbody", "table", "td", "tr"] ["tbody", "table", "td", "tr"] (by rfl) (by rfl) (by rfl) (by rfl) (by rfl) (by rfl)
-    (movesM_flatMap 0 [] accElToks els (fun e _ => accEl_moves hc e))
+    (movesM_flatMap 0 [] accKidToks kids (fun k _ => accKid_moves hc k))
 
 /-! ### mj-carousel: everything but the Outlook fall-back sits inside ONE not-Outlook block (mode 2) -/
 
@@ -343,17 +427,13 @@ theorem leaf_moves (step) (hc : IsChecker step) : ∀ l : LeafM, Moves step [] [
   | .divider => divider_moves hc
   | .spacer => spacer_moves hc
   | .table r tx => table_moves hc r tx
-  | .social vm els => by
-    rcases hc with rfl | rfl | rfl
-    · exact social_std vm els
-    · exact social_mso vm els
-    · exact social_vis vm els
+  | .social vm kids => social_moves hc vm kids
   | .navbar hb ls => by
     rcases hc with rfl | rfl | rfl
     · exact navbar_std hb ls
     · exact navbar_mso hb ls
     · exact navbar_vis hb ls
-  | .accordion els => accordion_moves hc els
+  | .accordion kids => accordion_moves hc kids
   | .carousel th f r => carousel_moves hc th f r
 
 /-- **every content component is inert** for standard clients, for Outlook and for the visibility check — for all parameter
@@ -386,26 +466,41 @@ theorem cntT_flatMap {α} (f : α → List GTok) (g : α → Nat) (l : List α) 
   | nil => rfl
   | cons a r ih => simp [List.flatMap_cons, h, ih]
 
-theorem cnt_socElH (e : SocEl) : cntT (socElH e) = e.slots := by
-  obtain ⟨ic, h, tx⟩ := e; cases ic <;> cases h <;> cases tx <;> rfl
-theorem cnt_socElV (e : SocEl) : cntT (socElV e) = e.slots := by
-  obtain ⟨ic, h, tx⟩ := e; cases ic <;> cases h <;> cases tx <;> rfl
-theorem cnt_socLoop : ∀ els : List SocEl, cntT (socLoop els) = (els.map SocEl.slots).sum
-  | [] => rfl
-  | [e] => by simp [socLoop, cnt_socElH]
-  | e :: e' :: r => by
-    have ih := cnt_socLoop (e' :: r)
-    simp only [socLoop, cntT_append, cnt_socElH, ih]
-    simp [c, o]
-theorem cnt_navLoop : ∀ (first : Bool) (ls : List Bool), cntT (navLoop first ls) = (ls.map b2n).sum
-  | _, [] => rfl
-  | first, cn :: r => by
-    have ih := cnt_navLoop false r
-    simp only [navLoop, cntT_append, ih]
-    cases first <;> cases cn <;> simp [o, c, t, ite', b2n] <;> omega
-theorem cnt_accEl (e : AccEl) : cntT (accElToks e) = e.slots := by
-  obtain ⟨ti, tx, il⟩ := e
-  rcases ti with _ | ⟨_ | _⟩ <;> rcases tx with _ | ⟨_ | _⟩ <;> cases il <;> rfl
+theorem cnt_rawG (b : Bool) : cntT (rawG b) = rawSlots b := by cases b <;> rfl
+theorem cnt_socElH (e : SocEl) : cntT (socElH e) = b2n e.text := by
+  obtain ⟨h, tx⟩ := e; cases h <;> cases tx <;> rfl
+theorem cnt_socElV (e : SocEl) : cntT (socElV e) = b2n e.text := by
+  obtain ⟨h, tx⟩ := e; cases h <;> cases tx <;> rfl
+theorem cnt_socKidV (k : SocChild) : cntT (socKidV k) = k.slots := by
+  cases k with
+  | el e => exact cnt_socElV e
+  | raw b => exact cnt_rawG b
+theorem cnt_socLoop : ∀ (kids : List SocChild) (rem : Nat), cntT (socLoop rem kids) = (kids.map SocChild.slots).sum
+  | [], _ => rfl
+  | .raw b :: r, rem => by simp [socLoop, cnt_rawG, cnt_socLoop r rem, SocChild.slots]
+  | .el e :: r, rem => by
+    simp only [socLoop, cntT_append, cnt_socElH, cnt_socLoop r (rem - 1), List.map_cons, List.sum_cons, SocChild.slots]
+    split <;> simp [socSep, c, o]
+theorem cnt_navLink (cn : Bool) : cntT (navLink cn) = b2n cn := by cases cn <;> rfl
+theorem cnt_navLoop : ∀ (op first : Bool) (kids : List NavChild), cntT (navLoop op first kids) = (kids.map NavChild.slots).sum
+  | _, _, [] => rfl
+  | op, first, .raw b :: r => by
+    simp only [navLoop, cntT_append, cnt_rawG, cnt_navLoop false first r, List.map_cons, List.sum_cons, NavChild.slots]
+    cases op <;> simp
+  | op, first, .link cn :: r => by
+    simp only [navLoop, cntT_append, cnt_navLink, cnt_navLoop false false r, List.map_cons, List.sum_cons, NavChild.slots]
+    cases op <;> cases first <;> simp [o, c]
+theorem cnt_accPart (il : Bool) (p : AccPart) : cntT (accPartToks il p) = p.slots := by
+  cases p with
+  | title cn => cases il <;> cases cn <;> rfl
+  | text cn => cases cn <;> rfl
+  | raw b => exact cnt_rawG b
+theorem cnt_accKid (k : AccChild) : cntT (accKidToks k) = k.slots := by
+  cases k with
+  | el e =>
+    simp only [accKidToks, accElToks, cntT_append, cntT_flatMap _ AccPart.slots e.parts (cnt_accPart e.iconLeft), AccChild.slots]
+    simp [o, c, v]
+  | raw b => exact cnt_rawG b
 theorem cnt_carImage (h : Bool) : cntT (carImage h) = 0 := by cases h <;> rfl
 
 /-- **a content component contains exactly its author-content slots**: nothing the author wrote inside it is dropped or
@@ -422,21 +517,18 @@ theorem leaf_count : ∀ l : LeafM, cntT l.toks = l.slots
     split
     · cases tx <;> simp [o, c, t, ite', b2n]
     · rw [cntT_replicate]; simp [tableRow, o, c, t]
-  | .social vm els => by
+  | .social vm kids => by
     simp only [LeafM.toks, socialToks, LeafM.slots]
     cases vm
-    · cases els with
-      | nil => rfl
-      | cons e r =>
-        simp only [Bool.false_eq_true, if_false, List.isEmpty_cons, cntT_append, cnt_socLoop]
-        simp [o, c]
-    · simp only [if_true, cntT_append, cntT_flatMap socElV SocEl.slots els cnt_socElV]
+    · simp only [Bool.false_eq_true, if_false, cntT_append, cnt_socLoop]
+      split <;> simp [o, c]
+    · simp only [if_true, cntT_append, cntT_flatMap socKidV SocChild.slots kids cnt_socKidV]
       simp [o, c]
-  | .navbar hb ls => by
+  | .navbar hb kids => by
     simp only [LeafM.toks, navbarToks, LeafM.slots, cntT_append, cnt_navLoop]
-    cases hb <;> cases ls <;> simp [o, c, v, fill, ite']
-  | .accordion els => by
-    simp only [LeafM.toks, accordionToks, LeafM.slots, cntT_append, cntT_flatMap accElToks AccEl.slots els cnt_accEl]
+    cases hb <;> split <;> (try split) <;> simp [o, c, v, fill, ite', hamburgerToks]
+  | .accordion kids => by
+    simp only [LeafM.toks, accordionToks, LeafM.slots, cntT_append, cntT_flatMap accKidToks AccChild.slots kids cnt_accKid]
     simp [o, c]
   | .carousel th f r => by
     simp only [LeafM.toks, carouselToks, LeafM.slots, cntT_append, cntT_replicate,
